@@ -70,6 +70,23 @@ def run(ctx):
         for rep in range(3 * reps):
             runs.append(Run("mp%d_%d" % (fi, rep), {"in/s.json": json.dumps(msch)}, ["-p", "example.com/dflt", "-o", "out/dflt.go"] + flags + ["in/s.json"]))
             meta.append((base_si + fi, "mappings-%d-run-%d" % (fi, rep)))
+    # multi-file layouts: extension-less references with several candidate files, several resolve / yaml extensions, several file arguments
+    item_j = {"type": "object", "properties": {"price": {"type": "number"}, "currency": {"type": "string"}}, "required": ["price", "currency"]}
+    item_y = "type: object\nproperties:\n  price:\n    type: number\nrequired: [price]\n"
+    top = {"$id": "http://x/top", "type": "object", "properties": {"item": {"$ref": "./item"}, "other": {"$ref": "lib/common#/$defs/Label"}, "third": {"$ref": "lib/more.yml#/$defs/K"}}}
+    second = {"$id": "http://x/second", "type": "object", "properties": {"again": {"$ref": "item"}, "l": {"$ref": "lib/common.json#/$defs/Label"}}}
+    files = {"in/top.json": json.dumps(top), "in/second.json": json.dumps(second), "in/item.json": json.dumps(item_j), "in/item.yaml": item_y,
+             "in/lib/common.json": json.dumps({"description": "common", "$defs": {"Label": {"type": "string", "minLength": 1}}}), "in/lib/common.yaml": "description: common\n$defs:\n  Label:\n    type: integer\n",
+             "in/lib/more.yml": "description: more\n$defs:\n  K:\n    type: string\n    enum: [a, b]\n"}
+    layouts = [["--resolve-extension", ".json", "--resolve-extension", ".yaml", "--yaml-extension", ".yml", "--yaml-extension", ".yaml", "in/top.json"],
+               ["--resolve-extension", ".yaml", "--resolve-extension", ".json", "--yaml-extension", ".yaml", "--yaml-extension", ".yml", "in/top.json", "in/second.json"],
+               ["--resolve-extension", ".yml", "--resolve-extension", ".yaml", "--resolve-extension", ".json", "--yaml-extension", ".yml", "--yaml-extension", ".yaml", "in/second.json", "in/top.json"]]
+    base_li = len(schemas)
+    for li, argv in enumerate(layouts):
+        schemas.append({"layout": argv})
+        for rep in range(4 * reps):
+            runs.append(Run("ml%d_%d" % (li, rep), files, ["-p", "example.com/m", "-o", "out/m.go"] + argv))
+            meta.append((base_li + li, "layout-%d-run-%d" % (li, rep)))
     run_all(ctx, runs)
     by = {}
     for r, (si, vn) in zip(runs, meta):
@@ -81,15 +98,18 @@ def run(ctx):
         ref = lst[0][1]
         outs = {}
         for vn, r in lst:
-            ctx.count({"s": schemas[si], "v": vn}, True, "byte-identity/" + ("special" if si < len(SPECIAL) else ("mappings" if vn.startswith("mappings") else "random")))
+            ctx.count({"s": schemas[si], "v": vn}, True, "byte-identity/" + ("special" if si < len(SPECIAL) else ("mappings" if vn.startswith("mappings") else ("multi-file" if vn.startswith("layout") else "random"))))
             key = (r.status, sha(r.stdout), tuple(sorted((k, sha(v)) for k, v in r.created.items())))
             outs.setdefault(key, []).append(vn)
         distinct_total += len(outs)
+        if ref.status != 0 and si >= base_li and nv < 6:
+            ctx.violation("oracle", {"kind": "determinism", "files": ref.files, "argv": ref.argv}, "multi-file layout could not be generated: %s" % ref.stderr.decode("utf-8", "replace")[:300])
+            nv += 1
         if ref.status != 0 and si >= len(SPECIAL):
             continue
         if len(outs) > 1 and nv < 6:
             other = [v for k, v in outs.items() if lst[0][0] not in v][0]
-            ctx.violation("oracle", {"kind": "determinism", "files": {"in/s.json": json.dumps(schemas[si])}, "argv": ref.argv,
+            ctx.violation("oracle", {"kind": "determinism", "files": ref.files if isinstance(getattr(ref, "files", None), dict) else {"in/s.json": json.dumps(schemas[si])}, "argv": ref.argv,
                                      "variants": {str(k): v for k, v in outs.items()}},
                           "%d distinct outputs for one schema: variants %s differ from the first run" % (len(outs), other[:4]))
             nv += 1
@@ -97,7 +117,7 @@ def run(ctx):
     ctx.cov["distinct_outputs_total"] = distinct_total
     ctx.cov["rule"] = ("5 special schemas (definition names tied under case folding / normalisation with different sub-schemas, colliding sibling properties, many imports and "
                        "constants, allOf/anyOf) + random in-guard schemas, under 5 option sets; each generated in %d separate processes: repeated runs, random and reversed key "
-                       "order inside every JSON object, moved to another directory, invoked relative to another working directory; stdout and written files compared byte for byte; 5 sets of mappings with look-alike ids (trailing #, /, case, prefix) x repeated processes; "
+                       "order inside every JSON object, moved to another directory, invoked relative to another working directory; stdout and written files compared byte for byte; 5 sets of mappings with look-alike ids (trailing #, /, case, prefix) x repeated processes; 3 multi-file layouts (extension-less references with a .json and a .yaml candidate of different content, several --resolve-extension / --yaml-extension flags in different orders and spellings, one or two file arguments) x repeated processes; "
                        "non-trivial = every run; distinct by hash of (schema, variant)" % (2 * reps + 4))
     ctx.sample({"family": "byte-identity", "schema": schemas[0], "variants": [m[1] for m in meta[:6]], "sha": sha(runs[0].stdout)})
 
